@@ -431,6 +431,75 @@ func (p *Program) shapeOf(fn *types.Func) (*funcShape, bool) {
 				a.Ret = append(a.Ret, env.term(r))
 			}
 			sh.Arms = append(sh.Arms, a)
+		case *ast.TypeSwitchStmt:
+			// switch v := x.(type) { case T: return E1; default: return E2 } as the last statement:
+			// the same as `if v, ok := x.(T); ok { return E1 }; return E2`
+			if !last || s.Init != nil {
+				return nil, false
+			}
+			var operand ast.Expr
+			switch a := s.Assign.(type) {
+			case *ast.AssignStmt:
+				if len(a.Rhs) == 1 {
+					if ta, ok := ast.Unparen(a.Rhs[0]).(*ast.TypeAssertExpr); ok {
+						operand = ta.X
+					}
+				}
+			case *ast.ExprStmt:
+				if ta, ok := ast.Unparen(a.X).(*ast.TypeAssertExpr); ok {
+					operand = ta.X
+				}
+			}
+			if operand == nil {
+				return nil, false
+			}
+			var def *ast.CaseClause
+			for _, cl := range s.Body.List {
+				cc := cl.(*ast.CaseClause)
+				if len(cc.Body) != 1 {
+					return nil, false
+				}
+				ret, ok := cc.Body[0].(*ast.ReturnStmt)
+				if !ok {
+					return nil, false
+				}
+				if cc.List == nil {
+					def = cc
+					continue
+				}
+				if len(cc.List) != 1 {
+					return nil, false
+				}
+				at := &Term{Kind: "assert", Type: pkg.TypesInfo.TypeOf(cc.List[0]), Args: []*Term{env.term(operand)}}
+				inner := &termEnv{info: env.info, bind: map[types.Object]*Term{}}
+				for k, v := range env.bind {
+					inner.bind[k] = v
+				}
+				if o := pkg.TypesInfo.Implicits[cc]; o != nil {
+					inner.bind[o] = at
+				}
+				a := arm{Kind: "assert", Cond: at, Pos: cc.Pos()}
+				for _, r := range ret.Results {
+					a.Ret = append(a.Ret, inner.term(r))
+				}
+				sh.Arms = append(sh.Arms, a)
+			}
+			if def == nil {
+				return nil, false
+			}
+			inner := &termEnv{info: env.info, bind: map[types.Object]*Term{}}
+			for k, v := range env.bind {
+				inner.bind[k] = v
+			}
+			if o := pkg.TypesInfo.Implicits[def]; o != nil {
+				inner.bind[o] = env.term(operand)
+			}
+			fa := arm{Kind: "final", Pos: def.Pos()}
+			for _, r := range def.Body[0].(*ast.ReturnStmt).Results {
+				fa.Ret = append(fa.Ret, inner.term(r))
+			}
+			sh.Arms = append(sh.Arms, fa)
+			return sh, true
 		case *ast.AssignStmt:
 			// let-binding: x := <pure expression>
 			if last || s.Tok != token.DEFINE || len(s.Lhs) != len(s.Rhs) {
